@@ -53,6 +53,23 @@ def main():
             rc, out = sh(f"./check {p} --tier quick", cwd=VERIF, env=env2)
             lines = [l for l in out.splitlines() if l.startswith("VIOLATION") or "sub-check=" in l or "HARNESS" in l]
             checks[p] = {"exit": rc, "detected": rc == 1, "lines": lines[:6]}
+            if rc == 1:
+                # keep the (shrunk) failing inputs as regression replays of the replay tier
+                import glob
+                import re as _re
+
+                rd = os.path.join(VERIF, "replays", p)
+                os.makedirs(rd, exist_ok=True)
+                kept = 0
+                for l in out.splitlines():
+                    m_ = _re.match(r"VIOLATION property=\S+ replay=(\S+)", l)
+                    if m_ and os.path.exists(m_.group(1)) and kept < 3:
+                        rec = json.load(open(m_.group(1)))
+                        if len(json.dumps(rec["input"])) > 20000 or rec["sub"].startswith("replay"):
+                            continue
+                        kept += 1
+                        json.dump({"property": p, "sub": rec["sub"], "input": rec["input"], "origin": f"failing input found against seeded change {name} ({rec.get('signature', '')})"},
+                                  open(os.path.join(rd, f"{name}-{kept}.json"), "w"), indent=1)
             print(p, "exit", rc, *lines[:4], sep="\n   ")
         result["checks_quick"] = checks
     finally:
